@@ -968,6 +968,21 @@ func waitScWritePeerWindowClosed(e *waitEnv, r *waitResult, sc *waitScenario) {
 		"the send buffer was acknowledged empty by a peer that advertises a closed window")
 }
 
+// A writer blocked on a full send window while the peer is silent; the application enlarges the send
+// window (SetWindowSize).  Free window is what a blocked Write waits for, wherever it comes from:
+// nothing arrives from the peer, so only the session's own periodic update can tell the writer.
+func waitScWriteWindowEnlarged(e *waitEnv, r *waitResult, sc *waitScenario) {
+	sd := &waitWriteSide
+	calls := waitStart(e, r, sc, sd, 1)
+	if calls == nil || !waitExpectBlocked(e, r, sd, calls, "before the window is enlarged") {
+		return
+	}
+	e.cs.SetWindowSize(4*waitWnd, 4*waitWnd)
+	e.logf("SetWindowSize enlarged the send window to %d while the writer is parked (the peer stays silent)", 4*waitWnd)
+	waitExpectAll(e, r, sd, calls, "written", time.Time{}, time.Now().Add(waitMargin), "write-window-lost-wakeup:window-enlarged", "",
+		"SetWindowSize enlarged the send window while nothing arrived from the peer")
+}
+
 func waitScReadSeparate(n int) func(*waitEnv, *waitResult, *waitScenario) {
 	return func(e *waitEnv, r *waitResult, sc *waitScenario) {
 		sd := &waitReadSide
@@ -1191,6 +1206,7 @@ func waitCatalogue(thorough bool, rng *vrng) []*waitScenario {
 	add("wake-short-buffer", "Read", 2, true, waitScReadShort)
 	add("wake-fec-recovery", "Read", 1, false, waitScReadFecRecovery)
 	add("wake-peer-window-closed", "Write", 1, true, waitScWritePeerWindowClosed)
+	add("wake-window-enlarged", "Write", 1, true, waitScWriteWindowEnlarged)
 	add("accepted-session-socket-error-after-listener-close", "Read", 1, true, waitScReadAcceptedSockErr)
 	// one datagram, several messages and/or a message longer than a buffer, >= 3 readers: each of
 	// the three successful paths of Read (bufptr, direct, recvbuf) is in turn the LAST one that
